@@ -115,6 +115,7 @@ type Engine struct {
 	initDone  map[*ssa.Package]bool
 	opaqueMem map[string]*Cell
 	streams   int
+	loopWhy   string
 }
 
 func NewEngine(p *Program) *Engine {
@@ -545,7 +546,7 @@ func (e *Engine) exec(st *State, fr *frame, b, pred *ssa.BasicBlock, idx, depth 
 						if outs, ok := e.summariseLoop(st, fr, b, in, c, depth); ok {
 							return outs
 						}
-						return e.stuck(st, "counting loop is not of the form `for i := a; i < N; i++ { table[i] = f(i) }`", e.condPos(in))
+						return e.stuck(st, "counting loop cannot be summarised by one generic iteration: "+e.loopWhy, e.condPos(in))
 					}
 					if *c.Const {
 						next = b.Succs[0]
@@ -559,7 +560,7 @@ func (e *Engine) exec(st *State, fr *frame, b, pred *ssa.BasicBlock, idx, depth 
 					if outs, ok := e.summariseLoop(st, fr, b, in, c, depth); ok {
 						return outs
 					}
-					return e.stuck(st, "loop with a symbolic condition "+c.Key()+" that is not a constant-consumption skip loop", e.condPos(in))
+					return e.stuck(st, "loop with the symbolic condition "+trunc(c.Key(), 100)+" cannot be summarised by one generic iteration: "+e.loopWhy, e.condPos(in))
 				}
 				fr.forks[b]++
 				if fr.forks[b] > 1 {
@@ -791,7 +792,7 @@ func (e *Engine) evalValue(st *State, fr *frame, in ssa.Value) (Val, string) {
 		if !ok {
 			if o, ok := x.(*Opaque); ok {
 				// pointer of unknown provenance: give it a symbolic pointee
-				key := "deref:" + o.Key
+				key := "deref:" + o.Key + ":" + in.X.Type().String()
 				c := e.opaqueMem[key]
 				if c == nil {
 					c = e.newCell("*"+o.Key, in.X.Type().Underlying().(*types.Pointer).Elem())
